@@ -330,7 +330,13 @@ func checkRun(m *projsim.Model, label string, events []projsim.Event, log []proj
 			}
 			if started[l] {
 				want = append(want, t.Prints...)
-				want = append(want, expectedLines(t.Emit)...)
+				chunks := append([]string{}, t.Emit...)
+				if t.Exec > 0 {
+					// the child's output continues the same stream (a partial last line of the emitted
+					// chunks is completed by the child's first line)
+					chunks = append(chunks, strings.Join(projsim.ExecLines(t.Exec), "\n")+"\n")
+				}
+				want = append(want, expectedLines(chunks)...)
 				_ = completed
 			}
 			if strings.Join(got, "\x00") != strings.Join(want, "\x00") || len(got) != len(want) {
@@ -351,6 +357,11 @@ func checkRun(m *projsim.Model, label string, events []projsim.Event, log []proj
 			continue
 		}
 		if onCycle(m, id) {
+			continue
+		}
+		if events[idx[0]].Kind == "Failed" {
+			// a lone failure (missing or cyclic dependency) may be reported at any time: the statement
+			// orders nothing but a body (and hence "evaluating" and "up to date") after its dependencies
 			continue
 		}
 		var depLabels []string
@@ -492,6 +503,11 @@ func gen(t *rapid.T) Case {
 	for i := range m.Targets {
 		if rapid.IntRange(0, 3).Draw(t, "prints") == 3 {
 			m.Targets[i].Prints = []string{fmt.Sprintf("direct %d", i)}
+		}
+		if rapid.IntRange(0, 5).Draw(t, "exec") == 5 {
+			// output of a child process: lines alternately on its stdout and stderr
+			m.Targets[i].Exec = rapid.SampledFrom([]int{40, 3, 200, 12}).Draw(t, "execlines")
+			m.Targets[i].ExecTry = rapid.Bool().Draw(t, "exectry")
 		}
 		if rapid.IntRange(0, 19).Draw(t, "ghost") == 7 {
 			// a dependency that names nothing: no such target in an existing package, or a package without a BUILD file
